@@ -100,6 +100,8 @@ func (m singleModel) Initialise() (error, TimeSteppingModel, data.ND3Float64, da
 
 		if inputs == nil {
 			inputs = data.NewArray3DFloat64(1, len(desc.Inputs), len(thisInput))
+		} else if len(thisInput) != inputs.Len3() {
+			return errors.New(fmt.Sprintf("Input %s has %d values, expected %d", p, len(thisInput), inputs.Len3())), nil, nil, nil, warnings
 		}
 
 		inputs.Apply([]int{0, i, 0}, 2, 1, thisInput)
@@ -152,6 +154,11 @@ func RunSingleModelJSON(r io.Reader, w io.Writer, splitOutputs bool) {
 	}
 
 	description = model.Description()
+
+	if inputs == nil {
+		log("No input time series provided")
+		return
+	}
 
 	outputs := InitialiseOutputs(model, inputs.Len3(), 1)
 
